@@ -1,5 +1,5 @@
 import SppModel.Generated.ReaderArith
-import SppModel.Props.C01
+import SppModel.Model.Plan
 import SppModel.Model.Reduce
 import SppModel.Model.Fold
 import SppModel.Model.Transform
